@@ -224,6 +224,18 @@ def gen_cases(ck):
                 "ab,cd\nef,gh\nij,kl\n"):
         for out in (0, None):
             cases.append({"mode": "raw", "line": cc.csv_line(txt, 0, -1, False, out)})
+    # 3e. boundaries of the regenerated constants (Gen/CsvConsts.v), correspondence only: a column that starts after
+    #     k blank rows around the number of records columns_info::build looks at, and tables whose delimiter statistics
+    #     change around the number of lines the sniffer scans
+    for k in (1, 2, 3, 5, 8, 9, 10, 11, 12, 15):
+        rows = ["%d,%s,%d" % (i, "" if i < k else "t%d" % i, i * 2) for i in range(k + 4)]
+        cases.append({"mode": "raw", "line": cc.csv_line("\n".join(rows) + "\n", 44, 0, False, 0)})
+        cases.append({"mode": "raw", "line": cc.csv_line("a,b,c\n" + "\n".join(rows) + "\n", 44, 1, False, 0)})
+    for k in (1, 2, 3, 5, 10, 18, 19, 20, 21, 22, 25):
+        rows = ["%d;%d" % (i, i + 1) for i in range(k)] + ["%d,%d,%d" % (i, i, i) for i in range(2 * k + 3)]
+        cases.append({"mode": "raw", "line": cc.csv_line("\n".join(rows) + "\n", 0, -1, False, 0)})
+        rows = ["%d,zz" % i for i in range(k + 1)] + ["%d,z%s" % (i, "z" * (i % 3)) for i in range(5)]
+        cases.append({"mode": "raw", "line": cc.csv_line("\n".join(rows) + "\n", 44, -1, False, 0)})
     # 4. src_problem + the program Xi
     for _ in range(150 * n):
         cl = rng.random() < 0.4
